@@ -40,12 +40,18 @@ impl Contents {
     }
 
     pub fn end(&self) -> Position {
-        let line = self.num_lines().saturating_sub(1) as u32;
-        let character =
-            self.lines
-                .last()
-                .map_or(0, |line| line.chars().map(|chr| chr.len_utf16()).sum()) as u32;
-        Position { line, character }
+        match self.lines.last() {
+            // The text ends with a line terminator: its end is the start of the (empty) line that follows
+            Some(line) if line.ends_with('\n') => Position {
+                line: self.num_lines() as u32,
+                character: 0,
+            },
+            Some(line) => Position {
+                line: (self.num_lines() - 1) as u32,
+                character: line.chars().map(|chr| chr.len_utf16()).sum::<usize>() as u32,
+            },
+            None => Position::default(),
+        }
     }
 
     #[cfg(test)]
